@@ -93,6 +93,18 @@ CHECKS = {
         design_ref="DESIGN.md section 5 C12",
         note="Same archives and constants as C10; truncation-detection clause exercised on an archive without layers "
              "(byte surgery is not possible under encryption)."),
+    "C13": dict(
+        technique="TLA+ EncWriter model with a partially accepting / interrupting destination (TLC: ScheduleIndependence, "
+                  "SinkIsPrefix); every transition replayed into the real layer; TLC-generated schedules applied to whole archives and sources",
+        text="TLC enumerates every interleaving of caller write_all calls, cipher-buffer steps, tag emission, partial "
+             "accepts and Interrupted of the encryption writer and checks that the destination always holds the format "
+             "layout of what was given; each transition is replayed on the real EncryptionLayerWriter (offered sizes and "
+             "destination content compared); the schedules are then used cyclically on whole archives of the Writer "
+             "model: written to a throttled destination, read and repaired from short-reading sources, compared with the "
+             "memory run on all 4 stackings.",
+        design_ref="DESIGN.md section 5 C13",
+        note="Bounded stream (41/61 bytes), accept sizes {1,3,(7),all}, 1-2 interrupts in the model; brotli's writer is "
+             "exercised only at archive level; under compression the archive length may legitimately differ."),
     "C14": dict(
         technique="Writer-model behaviours with flush() after every call; TLC evaluates FlushedRecoverable (RepairSpec) on the "
                   "repair of the bytes present at the destination when each flush returned",
